@@ -133,7 +133,7 @@ func c04Run(ctx *core.Ctx) {
 
 func c10Models(ctx *core.Ctx, f func(i int, tm gen.Tagged) bool) {
 	// structure-specific alphabet extensions first
-	extra := c10Extra()
+	extra := append(c10Extra(), c10ManyConds()...)
 	for j, tm := range extra {
 		if ctx.Mine(j) {
 			if !f(j, tm) {
@@ -187,6 +187,65 @@ func c10Extra() []gen.Tagged {
 			}}
 			out = append(out, gen.Tagged{Tag: fmt.Sprintf("structure: list %d %v / rewrite %d %s", li, l, ri, rw), M: m})
 		}
+	}
+	return out
+}
+
+// c10ManyConds: one target reached under every ordered list of one to four distinct entries out of {unconditioned, k1, k2,
+// k3, k4} - as a terminal type, as a userset, as the parent type of a tupleset - with a second relation b that reaches the
+// same target under a list of its own (condition lists are Go slices grown by append: lists of three leave spare capacity).
+func c10ManyConds() []gen.Tagged {
+	var out []gen.Tagged
+	conds := []string{"", "k1", "k2", "k3", "k4"}
+	var lists [][]string
+	var rec func(cur []string, used int)
+	rec = func(cur []string, used int) {
+		if len(cur) > 0 {
+			lists = append(lists, append([]string{}, cur...))
+		}
+		if len(cur) == 4 {
+			return
+		}
+		for i, c := range conds {
+			if used&(1<<i) == 0 {
+				rec(append(cur, c), used|1<<i)
+			}
+		}
+	}
+	rec(nil, 0)
+	var cdefs []ref.Condition
+	for _, c := range conds[1:] {
+		cdefs = append(cdefs, ref.Condition{Name: c, Params: []ref.Param{{Name: "x", Type: "int"}}, Expr: "x < 1"})
+	}
+	u := ref.Restriction{Type: "user"}
+	mk := func(target ref.Restriction, l []string) []ref.Restriction {
+		var rs []ref.Restriction
+		for _, c := range l {
+			r := target
+			r.Condition = c
+			rs = append(rs, r)
+		}
+		return rs
+	}
+	other := []string{"k4", "", "k1"}
+	for li, l := range lists {
+		for ti, target := range []ref.Restriction{{Type: "user"}, {Type: "group", Relation: "m"}, {Type: "user", Wildcard: true}} {
+			doc := ref.TypeDef{Name: "doc", Rels: []ref.Relation{
+				{Name: "a", Rw: ref.T(), Restr: mk(target, l)},
+				{Name: "b", Rw: ref.U(ref.T(), ref.C("a")), Restr: mk(target, other)},
+			}}
+			m := &ref.Model{Schema: "1.1", Conds: cdefs, Types: []ref.TypeDef{{Name: "user"},
+				{Name: "group", Rels: []ref.Relation{{Name: "m", Rw: ref.T(), Restr: []ref.Restriction{u}}}}, doc}}
+			out = append(out, gen.Tagged{Tag: fmt.Sprintf("many-conditions: list %d %v on target %d", li, l, ti), M: m})
+		}
+		// the list on the parent type of a tupleset
+		doc := ref.TypeDef{Name: "doc", Rels: []ref.Relation{
+			{Name: "p", Rw: ref.T(), Restr: mk(ref.Restriction{Type: "doc"}, l)},
+			{Name: "q", Rw: ref.T(), Restr: mk(ref.Restriction{Type: "doc"}, other)},
+			{Name: "a", Rw: ref.U(ref.T(), ref.TT("a", "p"), ref.TT("a", "q")), Restr: []ref.Restriction{u}},
+		}}
+		m := &ref.Model{Schema: "1.1", Conds: cdefs, Types: []ref.TypeDef{{Name: "user"}, doc}}
+		out = append(out, gen.Tagged{Tag: fmt.Sprintf("many-conditions: list %d %v on a tupleset", li, l), M: m})
 	}
 	return out
 }
